@@ -1365,3 +1365,42 @@ Proof.
   - intros Q E. apply (progress s I Q). intros c x Hx L. exists 0. rewrite W, (E c x Hx L). reflexivity.
   - intros Q. apply (quiescent_all_granted s I Q).
 Qed.
+
+(* ---- nobody is bypassed or dropped: how the two lists evolve in one step ------------------------------------------- *)
+(* a step leaves both lists alone, or pushes one new waiter, or hands the lock to the HEAD of the receiver list, or
+   (only when the receiver list is empty) moves the whole sender list to the receiver (reversed when FIFO) *)
+Lemma lists_step s e s' : Inv s -> step s e = Some s' ->
+  (receiver s' = receiver s /\
+   (waiters (sender s') = waiters (sender s) \/ exists c, waiters (sender s') = c :: waiters (sender s))) \/
+  (exists n, receiver s = n :: receiver s' /\ waiters (sender s') = waiters (sender s)) \/
+  (receiver s = [] /\ waiters (sender s) <> [] /\ waiters (sender s') = [] /\
+   receiver s' = if fifo s then rev (waiters (sender s)) else waiters (sender s)).
+Proof.
+  intros I H. destruct e; unfold step, try_failed in H.
+  all: try (case_hyp H; inv_some H; left; (split; [reflexivity|left; reflexivity]); fail).
+  - (* ETCas *) case_hyp H; inv_some H; left; (split; [reflexivity|left]); simpl;
+      try reflexivity; apply eqb_true_l in Heqb; destruct (sender s); simpl in *; try discriminate; reflexivity.
+  - (* ELCasN *) case_hyp H; inv_some H; left; (split; [reflexivity|left]); simpl;
+      destruct (sender s); simpl in *; try discriminate; reflexivity.
+  - (* EPush *) case_hyp H; inv_some H; left; (split; [reflexivity|right]); exists c; simpl; rewrite ?Heqw; reflexivity.
+  - (* ERCas *) case_hyp H; inv_some H; left; (split; [reflexivity|left]); simpl; try reflexivity.
+    apply eqb_true_l in Heqb. destruct (sender s) as [|[|? ?]]; simpl in *; try discriminate; reflexivity.
+  - (* ERXchg *) case_hyp H; inv_some H; right; right.
+    all: pose proof (proj2 (i_lc _ I _ _ Heqo)) as G; unfold stage_ok in G; rewrite Heqo0 in G;
+      apply andb_true_iff in G; destruct G as [G _]; apply negb_true_iff in G.
+    all: assert (Rv : receiver s = []) by (destruct (receiver s); [reflexivity|discriminate]).
+    all: simpl; repeat split; auto; discriminate.
+  - (* ERSubmitNext *) case_hyp H; unfold hand in H; cbn [receiver set_co] in H; case_hyp H; inv_some H.
+    all: right; left; eexists; split; reflexivity.
+  - (* ERBatchSubmit *) case_hyp H; inv_some H; left; split; [simpl; exact Heql|left; reflexivity].
+  - (* ERTransfer *) case_hyp H; unfold hand in H; cbn [receiver set_co] in H; case_hyp H; inv_some H.
+    all: right; left; eexists; split; reflexivity.
+Qed.
+
+Lemma thm_no_bypass f b ws hs tr s : run (init f b ws hs) tr = Some s -> forall e s', step s e = Some s' ->
+  (receiver s' = receiver s /\
+   (waiters (sender s') = waiters (sender s) \/ exists c, waiters (sender s') = c :: waiters (sender s))) \/
+  (exists n, receiver s = n :: receiver s' /\ waiters (sender s') = waiters (sender s)) \/
+  (receiver s = [] /\ waiters (sender s) <> [] /\ waiters (sender s') = [] /\
+   receiver s' = if fifo s then rev (waiters (sender s)) else waiters (sender s)).
+Proof. intros H e s'. exact (lists_step s e s' (inv_reach f b ws hs tr s H)). Qed.
